@@ -1,6 +1,7 @@
 package main
 
 import (
+	"encoding/hex"
 	"context"
 	"errors"
 	"net/http"
@@ -148,10 +149,22 @@ func toRuleSet(op map[string]any) *rconfig.RuleSet {
 	return rs
 }
 
+// outStr prints a byte string: the text itself if it is ASCII, hex otherwise (JSON cannot carry arbitrary bytes; the
+// Lean driver prints the same)
+func outStr(s string) string {
+	for i := 0; i < len(s); i++ {
+		if s[i] >= 0x80 { //nolint:mnd
+			return "hex:" + hex.EncodeToString([]byte(s))
+		}
+	}
+
+	return s
+}
+
 func sortedPairs(m map[string]string) [][]string {
 	res := [][]string{}
 	for k, v := range m {
-		res = append(res, []string{k, v})
+		res = append(res, []string{outStr(k), outStr(v)})
 	}
 
 	sort.Slice(res, func(i, j int) bool { return res[i][0] < res[j][0] })
@@ -160,7 +173,7 @@ func sortedPairs(m map[string]string) [][]string {
 }
 
 // rawTarget is the request target exactly as it would stand in the request line
-func newHTTPRequest(method, rawTarget, host string) (*http.Request, error) {
+func newHTTPRequest(method, rawTarget, host string, scheme ...string) (*http.Request, error) {
 	req := httptest.NewRequest(method, "http://placeholder/", nil)
 
 	// as net/http's server does for the request line
@@ -172,6 +185,11 @@ func newHTTPRequest(method, rawTarget, host string) (*http.Request, error) {
 	req.URL = u
 	req.RequestURI = rawTarget
 	req.Host = host
+
+	if len(scheme) == 1 && scheme[0] != "" && scheme[0] != "http" {
+		// what a trusted proxy in front of heimdall reports (the trusted-proxy middleware is not part of this family)
+		req.Header.Set("X-Forwarded-Proto", scheme[0])
+	}
 
 	return req.WithContext(context.Background()), nil
 }
@@ -204,7 +222,7 @@ func runRepo(c map[string]any) (any, error) {
 		case "del":
 			out = append(out, errKind(proc.OnDeleted(&rconfig.RuleSet{MetaData: rconfig.MetaData{Source: getStr(op, "src")}})))
 		case "find":
-			req, err := newHTTPRequest(getStr(op, "method"), getStr(op, "target"), getStr(op, "host"))
+			req, err := newHTTPRequest(getStr(op, "method"), getStr(op, "target"), getStr(op, "host"), getStr(op, "scheme"))
 			if err != nil {
 				out = append(out, map[string]any{"badrequest": true})
 
